@@ -29,10 +29,19 @@ from collections import Counter
 from fractions import Fraction as F
 
 VERIF = os.path.dirname(os.path.dirname(os.path.abspath(__file__)))
-REPO = os.environ.get('VERIF_REPO', '/repo')
-TARGET = os.path.join(VERIF, '.target')
-WORK = os.path.join(VERIF, '.work')
-HARNESS = os.path.join(VERIF, 'harness')
+REPO = os.path.abspath(os.environ.get('VERIF_REPO', '/repo'))
+if REPO == '/repo':
+    TARGET = os.path.join(VERIF, '.target')
+    WORK = os.path.join(VERIF, '.work')
+    HARNESS = os.path.join(VERIF, 'harness')
+else:
+    # self tests against a scratch copy of the repository (VERIF_REPO=<dir>): everything that is built or
+    # written (evidence and replay files included) lives under <dir>/.verif so that it disappears with the
+    # scratch copy; the registered checks never use this
+    TARGET = os.path.join(REPO, '.verif', 'target')
+    WORK = os.path.join(REPO, '.verif', 'work')
+    HARNESS = os.path.join(REPO, '.verif', 'harness')
+OUTDIR = VERIF if REPO == '/repo' else os.path.join(REPO, '.verif', 'out')
 NWORKERS = int(os.environ.get('VERIF_WORKERS', '16'))
 CALL_WATCHDOG_S = 120.0
 
@@ -47,6 +56,11 @@ def log(*a):
 # builds
 
 class BuildError(Exception):
+    pass
+
+
+class InitFailed(Exception):
+    """the driver built, but the library dies while initialising its tables (driver `info`)"""
     pass
 
 
@@ -70,8 +84,22 @@ def _run_build(cmd, cwd, env_extra=None, what='build'):
         lock.close()
 
 
+def _shadow_harness():
+    """for VERIF_REPO: a copy of the driver crate whose path dependency points at the scratch copy"""
+    src = os.path.join(VERIF, 'harness')
+    if HARNESS == src:
+        return
+    os.makedirs(os.path.join(HARNESS, 'src'), exist_ok=True)
+    toml = open(os.path.join(src, 'Cargo.toml')).read().replace('/repo/crates/svgbob', os.path.join(REPO, 'crates/svgbob'))
+    for rel, data in (('Cargo.toml', toml), ('src/main.rs', open(os.path.join(src, 'src/main.rs')).read())):
+        dst = os.path.join(HARNESS, rel)
+        if not os.path.exists(dst) or open(dst).read() != data:
+            open(dst, 'w').write(data)
+
+
 def _sync_lock():
     """the driver resolves its dependencies with the repository's lock file"""
+    _shadow_harness()
     src = os.path.join(REPO, 'Cargo.lock')
     dst = os.path.join(HARNESS, 'Cargo.lock')
     try:
@@ -273,7 +301,7 @@ def driver_info(binary):
     """the drawing character tables and the circle catalogue of the tree under test"""
     r = subprocess.run([binary, 'info'], stdout=subprocess.PIPE, stderr=subprocess.PIPE, timeout=120)
     if r.returncode != 0:
-        raise BuildError('driver info failed: ' + r.stderr.decode('utf-8', 'replace')[-1000:])
+        raise InitFailed('status %s: %s' % (r.returncode, r.stderr.decode('utf-8', 'replace')[-1500:]))
     txt = r.stdout.decode('utf-8')
     info = {'circles': []}
     cur = None
@@ -759,7 +787,7 @@ class Run:
                 real.append(v)
         # violations beyond the 50 kept per shard are counted but have no witness: they are of
         # the kinds already listed
-        os.makedirs(os.path.join(VERIF, 'replay'), exist_ok=True)
+        os.makedirs(os.path.join(OUTDIR, 'replay'), exist_ok=True)
         lines = []
         seen = set()
         for v in real:
@@ -769,7 +797,7 @@ class Run:
             seen.add(h)
             if len(lines) >= 20:
                 continue
-            path = os.path.join(VERIF, 'replay', '%s-%s.json' % (prop, h))
+            path = os.path.join(OUTDIR, 'replay', '%s-%s.json' % (prop, h))
             json.dump({'property': prop, 'tier': self.tier, 'seed': self.seed, 'case': v['case'],
                        'message': v['message']}, open(path, 'w'), indent=1, ensure_ascii=True, default=_jd)
             lines.append((path, v['message']))
@@ -800,8 +828,8 @@ class Run:
             'coverage': cov, 'assumptions': self.assumptions, 'wall_s': round(time.time() - self.t0, 2),
             'violations': len(seen),
         }
-        os.makedirs(os.path.join(VERIF, 'evidence'), exist_ok=True)
-        json.dump(ev, open(os.path.join(VERIF, 'evidence', prop + '.json'), 'w'), indent=1, ensure_ascii=True, default=str)
+        os.makedirs(os.path.join(OUTDIR, 'evidence'), exist_ok=True)
+        json.dump(ev, open(os.path.join(OUTDIR, 'evidence', prop + '.json'), 'w'), indent=1, ensure_ascii=True, default=str)
         log('%s %s seed=%d: %d evaluations, %d distinct non-trivial, %d driver calls, %.1fs' % (
             prop, self.tier, self.seed, self.evals, len(self.keys), self.calls, time.time() - self.t0))
         obs = ', '.join('%s=%d' % kv for kv in sorted(self.tags.items()))
@@ -852,6 +880,12 @@ def main(module):
         except BuildError as e:
             log(str(e))
             run.fatal = 'the code under test does not build'
+        except InitFailed as e:
+            # no conversion can succeed in a process whose tables do not initialise: the property does not hold
+            run.violations.append({'case': {'driver': 'info'}, 'signature': None,
+                                   'message': 'the library dies while initialising its drawing tables, before any conversion: %s' % e})
+            run.nviol += 1
+            run.evals = max(run.evals, 1)
         return run.finish()
     except KeyboardInterrupt:
         return 130
@@ -863,7 +897,13 @@ def replay(module, path):
     log('replaying %s (%s seed=%s)' % (path, rec.get('tier'), rec.get('seed')))
     binary = build_driver()
     ctx = Ctx(module, binary, rec.get('tier', 'quick'), rec.get('seed', 1), module.replay_extra(binary) if hasattr(module, 'replay_extra') else None)
-    if hasattr(module, 'replay_case'):
+    if case.get('driver') == 'info':
+        try:
+            driver_info(binary)
+            msg = None
+        except InitFailed as e:
+            msg = 'the library dies while initialising its drawing tables: %s' % e
+    elif hasattr(module, 'replay_case'):
         msg = module.replay_case(ctx, case)
     else:
         try:
